@@ -45,7 +45,7 @@ Proof.
   destruct (parts_trait h t (gen_trait_def (ta_opts (eff_trait_attr v a0)) TTrait MGeneric (h_attrs h) (Some (h_attrs h)) (h_vis h) (t_name t) (trait_tg t)
                                    (t_colon t) (t_supers t) fns MRawTrait) deleg
              (mkImpl (filter is_async_trait (h_attrs h)) false
-                           (mkGen true (p_of_list (impl_params true false (tg_params (trait_tg t))))
+                           (mkGen true (p_of_list (trait_impl_params (tg_params (trait_tg t))))
                                   (where_of_list (mk_pred (impl_t_bounds (eff_trait_attr v a0) (trait_contains_async (t_items t)) (t_name t) (trait_tg t)) :: p_items (tg_where (trait_tg t)))))
                            (Some ([TId (t_name t)] ++ print_arguments false (tg_params (trait_tg t))))
                            impl_path_toks methods)
